@@ -256,7 +256,7 @@ def project_case(rng):
 def strip_fns(fns):
     out = []
     for f in fns:
-        out.append({k: f[k] for k in ("kind", "name", "ret", "params", "startLine", "stopLine", "nameLine", "nameCol", "calls", "annos")})
+        out.append({k: f[k] for k in ("kind", "name", "ret", "params", "startLine", "fullStartLine", "stopLine", "nameLine", "nameCol", "calls", "annos")})
     return out
 
 
@@ -470,7 +470,7 @@ def oracle_c01(case, out, raw):
 def same_line_members(t):
     seen = set()
     for f in t["functions"]:
-        key = (f["name"], f["startLine"])
+        key = (f["name"], f["fullStartLine"])
         if key in seen:
             return True
         seen.add(key)
@@ -501,7 +501,7 @@ def oracle_c02(case, out, raw):
         for f in n["Functions"]:
             fmap.setdefault((f["Name"], f["Position"]["StartLine"]), []).append(f)
         for tf in t["functions"]:
-            cand = fmap.get((tf["name"], tf["startLine"]), [])
+            cand = fmap.get((tf["name"], tf["fullStartLine"]), [])
             if len(cand) != 1 or same_line_members(t):
                 continue       # C01's business
             got = cand[0]["FunctionCalls"]
